@@ -269,6 +269,9 @@ func init() {
 			return fmt.Errorf("cannot start node: %v", err)
 		}
 		defer func() { node.in.Close(); node.cmd.Wait() }()
+		if err := c09HtmlStages(c); err != nil {
+			return err
+		}
 		var pool [][]byte
 		for _, d := range docs {
 			if len(d.data) < 200000 {
@@ -369,7 +372,7 @@ func init() {
 			run(d, m, cfg, mutated)
 		}
 		for _, k := range h.Known("C09") {
-			if k.Status != "open" {
+			if k.Status != "open" || k.ReplayStr("mediatype") == "" { // entries without a media type are replayed by the language slices
 				continue
 			}
 			var o1, o2 bytes.Buffer
